@@ -108,7 +108,7 @@ def gen_simple(rng, prefixes, allow_not=True):
         return ('pelem', rng.choice(PELEMS), rng.choice([1, 2]))
     if k == 6 and allow_not:
         inner = rng.choice([gen_simple(rng, prefixes, False), ('type', gen_typesel(rng, prefixes))])
-        if inner[0] in ('pelem', 'not'):
+        if inner[0] in ('pelem', 'not', 'pfunc'):   # cssutils rejects functional pseudo-classes inside :not()
             inner = ('class', 'z')
         return ('not', inner)
     return ('class', rng.choice(NAMES))
@@ -220,6 +220,12 @@ class Spelling:
                 ws = ' ' + ws
         return ws
 
+    def ws(self):
+        """optional white space without comments (inside url( ) a comment is not white space)"""
+        if not self.rng or self.level < 1:
+            return ''
+        return self.rng.choice(['', '', ' ', '\n', '\t', '  '])
+
     def case(self, s):
         if not self.rng or self.level < 3:
             return s
@@ -247,7 +253,7 @@ class Spelling:
             elif c.isalpha() and r < 0.3:
                 out.append('\\%x ' % ord(c))
             elif c.isalpha() and r < 0.35:
-                out.append('\\%06x' % ord(c))
+                out.append('\\%06x ' % ord(c))      # the terminator is written explicitly: a following gap must stay a gap
             else:
                 out.append(c)
         return ''.join(out)
@@ -261,8 +267,8 @@ def q_string(sp, s):
 def r_url(sp, u, form=None):
     form = form or ('urlq' if any(c in u for c in ' \'"()') else (sp.rng.choice(['url', 'urlq']) if sp.rng and sp.level >= 4 else 'url'))
     if form == 'url' and not any(c in u for c in ' \'"()\\'):
-        return sp.case('url') + '(' + sp.gap() + u + sp.gap() + ')'
-    return sp.case('url') + '(' + sp.gap() + q_string(sp, u) + sp.gap() + ')'
+        return sp.case('url') + '(' + sp.ws() + u + sp.ws() + ')'
+    return sp.case('url') + '(' + sp.ws() + q_string(sp, u) + sp.ws() + ')'
 
 
 def r_comp(sp, c):
@@ -381,13 +387,13 @@ def r_mq(sp, q):
     pre, mt, feats = q
     parts = []
     if pre:
-        parts.append(sp.case(pre))
+        parts.append(pre)
     if mt:
-        parts.append(sp.case(mt))
+        parts.append(mt)
     for f, v in feats:
         if parts:
-            parts.append(sp.case('and'))
-        parts.append('(' + sp.gap() + sp.case(f) + ((sp.gap() + ':' + sp.gap() + v) if v else '') + sp.gap() + ')')
+            parts.append('and')
+        parts.append('(' + sp.gap() + f + ((sp.gap() + ':' + sp.gap() + v) if v else '') + sp.gap() + ')')
     # the separators between the words of a query are REQUIRED white space
     out = parts[0]
     for p in parts[1:]:
@@ -449,8 +455,11 @@ def spec_simple(s):
     k = s[0]
     if k == 'id':
         return (1, 0, 0)
-    if k in ('class', 'attr', 'pseudo', 'pfunc'):
+    if k in ('class', 'attr'):
         return (0, 1, 0)
+    if k in ('pseudo', 'pfunc'):
+        # as property C16 states it (and cssutils counts): pseudo-CLASSES do not count
+        return (0, 0, 0)
     if k == 'pelem':
         return (0, 0, 1)
     if k == 'not':
